@@ -80,13 +80,21 @@ let () =
           | QErr MalformedCookieHeader -> "err MalformedCookieHeader") in
       (* oracle (boolean form of c14_handler_sees_sent_minus_consumed), on the implementation's own answer:
          an accepted request exposes exactly the sent list minus the consumed fields, in order, all ASCII *)
+      (* a field with a byte >= 128 never reaches the header processing: the head parser refuses it (names and
+         values are always pure ASCII); the model line for such a case is the refusal *)
+      let ascii_sent = all_ascii hs in
+      let model = if ascii_sent then model else "err MalformedHeaderLine" in
       let verdict = (match split_ws impl_line with
           | "panic" :: _ -> "oracle=fail@panic"
           | "ok" :: st ->
             (try let (hs_i, _) = parse_state st in
-               if oracle_c14_req hs hs_i then "oracle=ok" else "oracle=fail@exposed-headers"
+               if not (all_ascii hs_i) then "oracle=fail@non-ascii-in-an-exposed-header"
+               else if not ascii_sent then "oracle=fail@non-ascii-field-accepted"
+               else if oracle_c14_req hs hs_i then "oracle=ok" else "oracle=fail@exposed-headers"
              with _ -> "oracle=unparsable")
-          | "err" :: _ -> (match request_of_head meth hs with QOk _ -> "oracle=fail@rejected" | QErr _ -> "oracle=ok")
+          | "err" :: _ ->
+            if not ascii_sent then "oracle=ok"
+            else (match request_of_head meth hs with QOk _ -> "oracle=fail@rejected" | QErr _ -> "oracle=ok")
           | _ -> "oracle=unparsable") in
       Printf.printf "%s | %s\n" model verdict
     | "ascii" :: _ctor :: u :: _ ->
